@@ -60,7 +60,8 @@ fn check(c: &Case, ctx: &Ctx) -> Outcome {
     ord.sort_by_key(|i| (c.order[i % c.order.len()].wrapping_add((*i as u16).wrapping_mul(31337)), *i));
     del_names = ord.iter().map(|i| del_names[*i].clone()).collect();
     match c.refusal {
-        1 => del_names.push("not_a_sample".to_string()),
+        // a name that is in nobody's file: an invented one, or an existing one in another letter case
+        1 => del_names.push(if (n + k) % 2 == 0 { "not_a_sample".to_string() } else { let up = samples[del[0]].0.to_uppercase(); if samples.iter().any(|s| s.0 == up) { "not_a_sample".to_string() } else { up } }),
         2 => del_names = samples.iter().map(|s| s.0.clone()).collect(),
         _ => {}
     }
